@@ -149,7 +149,8 @@ import requests
 from requests.packages import urllib3
 
 from . import _cim_xml
-from .config import DEFAULT_ITER_MAXOBJECTCOUNT, AUTO_GENERATE_SFCB_UEP_HEADER
+from .config import DEFAULT_ITER_MAXOBJECTCOUNT, \
+    AUTO_GENERATE_SFCB_UEP_HEADER, SEND_VALUE_NULL
 from ._cim_constants import DEFAULT_NAMESPACE, CIM_ERR_NOT_SUPPORTED, \
     CIM_ERR_FAILED, DEFAULT_TIMEOUT
 from ._cim_types import CIMType, CIMDateTime, atomic_to_cim_xml
@@ -2169,6 +2170,15 @@ class WBEMConnection:  # pylint: disable=too-many-instance-attributes
                         param_name, type(obj), hint))
             # pylint: disable=inconsistent-return-statements
 
+        def arrayitem_null():
+            """
+            Return a _cim_xml node for an array item that is None (NULL),
+            consistent with tocimxml() of CIM objects.
+            """
+            if SEND_VALUE_NULL:
+                return _cim_xml.VALUE_NULL()
+            return _cim_xml.VALUE(None)
+
         def paramvalue(obj):
             """
             Return a _cim_xml node to be used as the value for a parameter.
@@ -2199,9 +2209,11 @@ class WBEMConnection:  # pylint: disable=too-many-instance-attributes
                                     "type {0} that cannot be represented in "
                                     "the same array as its first item",
                                     type(item)))
+                items = [paramvalue(x) if x is not None else arrayitem_null()
+                         for x in obj]
                 if is_refarray:
-                    return _cim_xml.VALUE_REFARRAY([paramvalue(x) for x in obj])
-                return _cim_xml.VALUE_ARRAY([paramvalue(x) for x in obj])
+                    return _cim_xml.VALUE_REFARRAY(items)
+                return _cim_xml.VALUE_ARRAY(items)
             # The type has been checked in infer_type(), so we can assert
             assert obj is None
 
